@@ -27,6 +27,11 @@ def _case(draw):
                      p_map=0.35, p_repeated=0.25, p_resource=0.1, max_files=2, p_keyword_rpc=0.03)
     api = draw(S.apis(prof))
     opts = {"params": ["autogen-snippets=False"], "snippets": False, "transport": "grpc"}
+    if draw(st.integers(0, 3)) == 0:
+        # the alternative (ads) template set has its own client template
+        opts["params"] += ["python-gapic-templates=ads-templates", "old-naming"]
+        opts["old_naming"] = True
+        opts["ads"] = True
     return {"api": api, "options": opts, "inner": {"seed": draw(st.integers(0, 2 ** 31)), "n": 10}}
 
 
